@@ -382,6 +382,13 @@ func (p *Program) Compile() (*Compiled, error) {
 				a.SOP2(kasm.OpSAndB32, kasm.S(sT0), kasm.S(sWGX), kasm.Imm(1))
 				a.SOP2(kasm.OpSAddU32, kasm.S(sTrip), kasm.S(sTrip), kasm.S(sT0))
 			}
+			if o.WaveDep > 0 {
+				a.VOP1S(kasm.OpVReadfirstlaneB32, kasm.S(sT0), kasm.V(vLID))
+				a.SOP2(kasm.OpSLshrB32, kasm.S(sT0), kasm.S(sT0), kasm.Imm(6))
+				a.SOPC(kasm.OpSCmpEqU32, kasm.S(sT0), kasm.Imm(0))
+				a.SOP2(kasm.OpSCselectB32, kasm.S(sT0), imm(uint32(o.WaveDep)), kasm.Imm(0))
+				a.SOP2(kasm.OpSAddU32, kasm.S(sTrip), kasm.S(sTrip), kasm.S(sT0))
+			}
 			a.SOPC(kasm.OpSCmpLtU32, kasm.S(sCtr), kasm.S(sTrip))
 			a.Branch(kasm.OpSCbranchScc0, end)
 			a.Label(top)
@@ -409,6 +416,15 @@ func (p *Program) Compile() (*Compiled, error) {
 	}
 	if p.FinalWait {
 		a.Waitcnt(0, 7, 15)
+	}
+	if p.TrailSLoad != 0 {
+		c.note("trailing s_load_dword s%d, not waited for", p.TrailSLoad)
+		maxOff := uint32(p.OutLen()*4-4) &^ 3
+		a.SOP2(kasm.OpSLshlB32, kasm.S(sT0), kasm.S(sWGX), kasm.Imm(6))
+		a.SOP2(kasm.OpSMinU32, kasm.S(sT0), kasm.S(sT0), kasm.Lit(maxOff))
+		a.SOP2(kasm.OpSAddU32, kasm.S(sT0), kasm.S(sOut0), kasm.S(sT0))
+		a.SOP2(kasm.OpSAddcU32, kasm.S(sT1), kasm.S(sOut0+1), kasm.Imm(0))
+		a.SMEM(kasm.OpSLoadDword, kasm.S(p.TrailSLoad), kasm.S(sT0), 0)
 	}
 	c.note("s_endpgm")
 	a.SOPP(kasm.OpSEndpgm, 0)
